@@ -9,10 +9,19 @@ Open Scope Z_scope.
 Section WithH.
 Variable H160 : bytes -> bytes.
 
+Lemma spec_address_hash net d : daddr_hash (spec_address net d) = d_payload d.
+Proof. destruct d as [[] w p]; reflexivity. Qed.
+
+Lemma spec_address_pfx fx net d : pfx_ok fx net -> forall v h, spec_address net d = DB58 v h -> tb fx v = v.
+Proof.
+  intros [H1 H2] v h E. destruct d as [[] w p]; cbn in E; try discriminate; injection E as <- _; apply tb_of; assumption.
+Qed.
+
 (* =========================== Address.parse(address, network=) object =========================== *)
 Lemma lock_is_spec_parse fx net d :
   In net all_networks -> standard d = true ->
   (fx_witver fx = true \/ cls_witver_parse d = false) ->
+  fx_tb fx (d_payload d) = d_payload d -> (forall n, In n all_networks -> pfx_ok fx n) ->
   match lib_address_parse H160 fx (spec_address net d) (Some (nw_name net)) with
   | Some ao =>
     ao_addr ao = spec_address net d /\
@@ -21,7 +30,12 @@ Lemma lock_is_spec_parse fx net d :
   | None => False
   end.
 Proof.
-  intros Hn Hstd Hg. destruct fx as [fw fn fp]. cbn [fx_witver] in Hg.
+  intros Hn Hstd Hg Htb Hp.
+  rewrite address_parse_tb;
+    [ | rewrite spec_address_hash; destruct (std_payload_cons d Hstd) as (pa & pr & ->); discriminate
+      | rewrite spec_address_hash; exact Htb | exact Hp | apply (spec_address_pfx fx net d (Hp net Hn)) ].
+  clear Htb Hp.
+  destruct fx as [fw fn fp tb0]. cbn [fx_witver] in Hg.
   std_shapes d Hstd; (each_net Hn; (destruct fw, fn, fp;
     first [ guard_false Hg
           | vm_compute; split; [reflexivity|]; eexists; repeat split; reflexivity ])).
@@ -32,6 +46,7 @@ Qed.
 Lemma lock_is_spec_parse_nonet fx net d :
   In net all_networks -> standard d = true ->
   fx_witver fx = true -> fx_netobj fx = true ->
+  fx_tb fx (d_payload d) = d_payload d -> (forall n, In n all_networks -> pfx_ok fx n) ->
   match lib_address_parse H160 fx (spec_address net d) None with
   | Some ao =>
     ao_addr ao = spec_address net d /\
@@ -40,7 +55,12 @@ Lemma lock_is_spec_parse_nonet fx net d :
   | None => False
   end.
 Proof.
-  intros Hn Hstd Hw Ho. destruct fx as [fw fn fp]. cbn [fx_witver fx_netobj] in Hw, Ho. subst fw fn.
+  intros Hn Hstd Hw Ho Htb Hp.
+  rewrite address_parse_tb;
+    [ | rewrite spec_address_hash; destruct (std_payload_cons d Hstd) as (pa & pr & ->); discriminate
+      | rewrite spec_address_hash; exact Htb | exact Hp | apply (spec_address_pfx fx net d (Hp net Hn)) ].
+  clear Htb Hp.
+  destruct fx as [fw fn fp tb0]. cbn [fx_witver fx_netobj] in Hw, Ho. subst fw fn.
   std_shapes d Hstd; (each_net Hn; (destruct fp;
     (vm_compute; split; [reflexivity|]; eexists; repeat split; reflexivity))).
 Qed.
